@@ -35,20 +35,25 @@ SAMPLE = {'String': ['a', 'b'], 'Integer': [1, 2], 'Number': [1.5, 2.5], 'Boolea
           'Time': ['2020-01-01/2020-12-31', '2021-01-01/2021-12-31'], 'Duration': ['A', 'M']}
 
 
-def build(eng_mods, comps, form, sid='DS_1'):
-    """comps: list of (id, DataType member, Role member) -> pysdmx object of the requested form"""
+def build(eng_mods, comps, form, sid='DS_1', reqs=None):
+    """comps: list of (id, DataType member, Role member) -> pysdmx object of the requested form;
+    reqs: the SDMX `required` flag per component (default: dimensions only)"""
     Component, Components, Schema, DSD, Dataflow, Concept = eng_mods
     cs = []
-    for cid, dt, role in comps:
+    for n_, (cid, dt, role) in enumerate(comps):
         kw = {}
         if role.name == 'ATTRIBUTE': kw['attachment_level'] = 'O'
-        cs.append(Component(id=cid, required=(role.name == 'DIMENSION'), role=role, concept=Concept(id=cid), local_dtype=dt, **kw))
+        cs.append(Component(id=cid, required=((role.name == 'DIMENSION') if reqs is None else bool(reqs[n_])), role=role, concept=Concept(id=cid), local_dtype=dt, **kw))
     if form == 'schema':
         return Schema(context='datastructure', agency='VERIF', id=sid, components=Components(cs), version='1.0')
     d = DSD(id=sid, agency='VERIF', components=Components(cs))
     if form == 'dsd':
         return d
     return Dataflow(id=sid, agency='VERIF', structure=d)
+
+
+def mapped_q(dtypes, mapping):
+    return [d for d in dtypes if str(d.value) in mapping]
 
 
 def main(ck):
@@ -102,7 +107,14 @@ def main(ck):
     for dt in dtypes:
         for r in roles:
             for f in forms:
-                cases.append(([('C_1', dt, r)], f))
+                cases.append(([('C_1', dt, r)], f, None))
+    # the SDMX `required` flag (assignment status / mandatory measure) varies independently of the role: nullability
+    # must follow the role alone
+    for dt in (dtypes if not ck.quick() else mapped_q(dtypes, VTL_DTYPES_MAPPING)):
+        for r in roles:
+            for req in (True, False):
+                if req != (r.name == 'DIMENSION'):
+                    cases.append(([('C_1', dt, r)], rng.choice(forms), [req]))
     n_rand = 200 if ck.quick() else 2500
     mapped = [d for d in dtypes if str(d.value) in VTL_DTYPES_MAPPING]
     for i in range(n_rand):
@@ -113,11 +125,11 @@ def main(ck):
             r = rng.choice(roles) if j else (Role.DIMENSION if rng.random() < 0.8 else rng.choice(roles))
             comps.append(('%s_%d' % ({'DIMENSION': 'D', 'MEASURE': 'M', 'ATTRIBUTE': 'A'}[r.name], j + 1), rng.choice(pool), r))
         rng.shuffle(comps)
-        cases.append((comps, rng.choice(forms)))
+        cases.append((comps, rng.choice(forms), None if rng.random() < 0.5 else [rng.random() < 0.5 for _ in comps]))
 
     # Lean side
-    lines = ['sdmx ' + ' '.join('%s:%s:%s' % (c, d.value, r.name) for c, d, r in comps) for comps, _ in cases]
-    doclines = ['sdmxdoc ' + ' '.join('%s:%s:%s' % (c, d.value, r.name) for c, d, r in comps) for comps, _ in cases]
+    lines = ['sdmx ' + ' '.join('%s:%s:%s' % (c, d.value, r.name) for c, d, r in comps) for comps, _, _ in cases]
+    doclines = ['sdmxdoc ' + ' '.join('%s:%s:%s' % (c, d.value, r.name) for c, d, r in comps) for comps, _, _ in cases]
     witness = ['sdmx C:GeospatialInformation:DIMENSION', 'sdmx C:XHTML:DIMENSION']
     try:
         ans = ck.driver('Tables', lines + doclines + witness)
@@ -136,13 +148,13 @@ def main(ck):
     disagree = []
     n_run = 0
     run_budget = 60 if ck.quick() else 500
-    for i, (comps, form) in enumerate(cases):
-        obj = build(mods, comps, form)
+    for i, (comps, form, reqs) in enumerate(cases):
+        obj = build(mods, comps, form, reqs=reqs)
         out = guarded(lambda: eng.outcome(to_vtl_json, obj))
         stats['forms'][form] = stats['forms'].get(form, 0) + 1
-        key = (tuple((d.value, r.name) for _, d, r in comps), form)
+        key = (tuple((d.value, r.name) for _, d, r in comps), form, tuple(reqs) if reqs else None)
         ck.count(key)
-        spec = ' '.join('%s:%s:%s' % (c, d.value, r.name) for c, d, r in comps)
+        spec = ' '.join('%s:%s:%s' % (c, d.value, r.name) + ('' if reqs is None else ':req' if reqs[n_] else ':opt') for n_, (c, d, r) in enumerate(comps))
         if out[0] == 'ok':
             stats['ok'] += 1
             got = 'ok ' + canon(out[1])
@@ -269,13 +281,19 @@ def replay(path):
     r = rep.get('replay', {})
     if 'components' not in r:
         print(json.dumps(rep, indent=1)); return 0
-    comps = []
+    comps, reqs = [], []
     for tok in r['components'].split():
-        c, d, ro = tok.split(':')
+        c, d, ro = tok.split(':')[:3]
         comps.append((c, DataType(d), Role[ro]))
-    o = eng.outcome(to_vtl_json, build(mods, comps, r.get('form', 'schema')))
+        reqs.append({'req': True, 'opt': False}.get((tok.split(':') + [''])[3], ro == 'DIMENSION'))
+    o = eng.outcome(to_vtl_json, build(mods, comps, r.get('form', 'schema'), reqs=reqs))
     print('replay %s -> %r' % (r['components'], o))
-    return 1 if o[0] != 'ok' and not (o[0] == 'vtl' and o[1] == 'InputValidationException') else 0
+    if o[0] == 'ok':
+        bad = [c for c in o[1]['datasets'][0]['DataStructure'] if c['nullable'] != (c['role'] != 'Identifier')]
+        if bad:
+            print('nullable is not "iff not an identifier":', bad)
+        return 1 if bad else 0
+    return 0 if (o[0] == 'vtl' and o[1] == 'InputValidationException') else 1
 
 
 if __name__ == '__main__':
